@@ -259,6 +259,15 @@ class BundleFlattener(ElabPass):
             msg = f"Invalid Port Connection to {portname} on Instance {inst}"
             self.fail(msg)
 
+        # Everything the connected Bundle brings along must have a place in the Port's Bundle.
+        # (Compatible `BundleInstance`s always do; `AnonymousBundle`s are not checked before this point.)
+        extra = [path for path in flat.signals if path not in flat_bundle_port.signals]
+        if extra:
+            msg = f"Connection to `{portname}` on Instance `{inst.name}` "
+            msg += f"has Signals `{['.'.join(p.segs) for p in extra]}` which its Bundle-valued Port does not have. "
+            msg += f"Port Signals are `{['.'.join(p.segs) for p in flat_bundle_port.signals.keys()]}`."
+            self.fail(msg)
+
         # Disconnect the old hierarchical Bundle port
         inst.disconnect(portname)
 
